@@ -6,6 +6,7 @@
 package hx
 
 import (
+	"os"
 	"context"
 	"fmt"
 	"sync"
@@ -31,8 +32,16 @@ func (Quiet) Error(...any)           {}
 func (Quiet) Errorf(string, ...any)  {}
 func (Quiet) Fatal(...any)           {}
 func (Quiet) Fatalf(string, ...any)  {}
-func (Quiet) Info(...any)            {}
-func (Quiet) Infof(string, ...any)   {}
+func (Quiet) Info(a ...any) {
+	if debugLog {
+		fmt.Fprintln(os.Stderr, append([]any{"[info]"}, a...)...)
+	}
+}
+func (Quiet) Infof(t string, a ...any) {
+	if debugLog {
+		fmt.Fprintf(os.Stderr, "[info] "+t+"\n", a...)
+	}
+}
 func (Quiet) Panic(a ...any)         { panic(fmt.Sprint(a...)) }
 func (Quiet) Panicf(t string, a ...any) {
 	panic(fmt.Sprintf(t, a...))
@@ -41,6 +50,9 @@ func (Quiet) Warn(...any)          {}
 func (Quiet) Warnf(string, ...any) {}
 
 var _ logging.Logger = Quiet{}
+
+// HSVERIF_LOG=1 prints the Info-level messages of the code under test (diagnosis only)
+var debugLog = os.Getenv("HSVERIF_LOG") != ""
 
 // GenKey generates a private key for the named scheme.
 func GenKey(scheme string) (hotstuff.PrivateKey, error) {
